@@ -308,6 +308,25 @@ def discharge(I, ob, z3_timeout_s, cvc5_timeout_s, both=False):
     ob.time = time.time() - t0
 
 
+def _source_trail(e):
+    """developer aid (PYVC_DEBUG=1): the analysed source lines on the interpreter stack when Unsupported was raised"""
+    import ast as _ast
+
+    out, tb = [], e.__traceback__
+    while tb is not None:
+        nd = tb.tb_frame.f_locals.get("node")
+        if isinstance(nd, _ast.AST) and hasattr(nd, "lineno"):
+            try:
+                txt = _ast.unparse(nd).splitlines()[0][:110]
+            except Exception:
+                txt = type(nd).__name__
+            item = "L%d %s" % (nd.lineno, txt)
+            if not out or out[-1] != item:
+                out.append(item)
+        tb = tb.tb_next
+    return "\n".join(out[-40:])
+
+
 def run_lemma(path, lemma_name, tier="quick"):
     """-> result dict (picklable).  Executed in a worker process."""
     t0 = time.time()
@@ -411,6 +430,8 @@ def run_lemma(path, lemma_name, tier="quick"):
         res["status"] = "unsupported"
         res["error"] = str(e)
         res["trace"] = traceback.format_exc()[-1500:]
+        if os.environ.get("PYVC_DEBUG"):
+            res["trace"] += "\n" + _source_trail(e)
     except Exception as e:  # noqa
         res["status"] = "error"
         res["error"] = "%s: %s" % (type(e).__name__, e)
